@@ -221,21 +221,23 @@ def f2_initial_shifts(ctx) -> None:
         raise AnalysisError("F2: _compute_shift(rule_key, shifts_for_zero) expected")
     rk, sfz = params
     rets = [r for r in C.returns_of(f) if r.value is not None]
-    if len(rets) != 2:
-        raise AnalysisError(f"F2: _compute_shift has {len(rets)} returns; the analysis knows the two-return arrangement")
-    pv_text = None
     all_none = finite = None
+    shortcuts = []
     for r in rets:
         gs = C.flatten_guards(C.guards(f, r))
         pos_none = [t for t, pol in gs if pol and isinstance(t, ast.Compare) and _is_none_test(t, norm(t.left), False)]
-        if pos_none:
+        if pos_none and all_none is None:
             all_none = (r, norm(pos_none[0].left))
-        else:
+        elif isinstance(r.value, ast.ListComp) and isinstance(r.value.elt, ast.IfExp) and finite is None:
             finite = r
+        elif not pos_none:
+            shortcuts.append(r)
     if all_none is None or finite is None:
         raise AnalysisError("F2: cannot tell the infinite-parent return from the finite one in _compute_shift")
+    for r in shortcuts:
+        ctx.violation("F2", r, f"_compute_shift also returns `{norm(r.value)[:70]}` for a finite parent: every initial shift must be child value + shift - parent value "
+                      "(a shortcut that leaves the parent's current value out is wrong as soon as the parent already has terms)")
     pv_text = all_none[1]
-    pv = _value_of(f, ast.parse(pv_text, mode="eval").body) if False else None
     # the parent's value is f(rule_key[0])
     pdefs = [d for d in D.definitions(f).get(pv_text, []) if d[1] is not None]
     ptxt = norm(pdefs[0][1]) if len(pdefs) == 1 else pv_text
@@ -258,6 +260,8 @@ def f2_initial_shifts(ctx) -> None:
     if not (isinstance(it, ast.Call) and norm(it.func) == "zip" and len(it.args) == 2 and isinstance(g.target, ast.Tuple) and len(g.target.elts) == 2):
         raise AnalysisError("F2: the comprehension of _compute_shift does not run over zip(children values, shifts_for_zero)")
     a0, a1 = (_value_of(f, a) for a in it.args)
+    while isinstance(a0, ast.Call) and norm(a0.func) in ("list", "tuple") and len(a0.args) == 1:
+        a0 = _value_of(f, a0.args[0])
     fv, sv = (norm(e) for e in g.target.elts)
     vals_ok = norm(a0) in (f"map(self._function.__getitem__, {rk}[1])", f"(self._function[c] for c in {rk}[1])", f"[self._function[c] for c in {rk}[1]]")
     if not vals_ok:
@@ -958,3 +962,128 @@ def f11_readers(ctx) -> None:
             if isinstance(n, ast.Attribute) and n.attr in ("_value", "_preimage_count", "_infinity_count") and not (isinstance(n.value, ast.Name) and n.value.id == "self" and fi.cls is not None and fi.cls.name == FN):
                 if isinstance(getattr(n, "ctx", None), ast.Store) or isinstance(getattr(n, "_parent", None), (ast.Subscript, ast.Attribute)):
                     ctx.violation("F11", n, f"{fi.qualname} reaches into Function's storage (`{norm(n)}`); values change only through increase_value / set_infinite")
+
+
+# ------------------------------------------------------------------ F12: the gap search reads the histogram only
+def f12_gap_search(ctx) -> None:
+    """preimage_gap(length) is the smallest k such that no class has a value in
+    [k, k + length - 1]: it is a function of the *current* histogram.  Any other state it
+    reads is a cache, and a cache is sound only if every writer of the histogram empties it
+    unconditionally (a gap moves when a level fills up as well as when one empties)."""
+    P = ctx.P
+    m = P.need_method(FN, "preimage_gap", own=True)
+    f = m.node
+    ctx.analysed(m)
+    length = [p for p in D.param_names(f) if p != "self"][0]
+    reads = {n.attr for n in walk_local(f) if is_self_attr(n) and n.attr != "_preimage_count"}
+    cls = P.need_class(FN)
+    for attr in sorted(reads):
+        if attr in cls.methods:
+            continue
+        bad = False
+        for mm in cls.methods.values():
+            if mm.name in ("__init__", "preimage_gap"):
+                continue
+            writes = [n for n in walk_local(mm.node) if isinstance(n, (ast.AugAssign, ast.Assign)) and any(
+                isinstance(t, ast.Subscript) and norm(t.value) == "self._preimage_count" for t in (n.targets if isinstance(n, ast.Assign) else [n.target]))]
+            if not writes:
+                continue
+            clears = [c for c in walk_local(mm.node) if isinstance(c, ast.Call) and norm(c.func) == f"self.{attr}.clear" and not C.guards(mm.node, c)]
+            if not clears:
+                bad = True
+                ctx.violation("F12", writes[0], f"{mm.qualname} changes the histogram but does not (unconditionally) empty `self.{attr}`, which preimage_gap reads: the gap "
+                              "returned is the one of an earlier histogram")
+        if not bad:
+            ctx.ok("F12", f"cache `self.{attr}` read by preimage_gap is emptied by every writer of the histogram")
+    if not reads:
+        ctx.ok("F12", "preimage_gap reads nothing but the histogram and its argument")
+    # the search itself
+    loops = [l for l in walk_local(f) if isinstance(l, ast.For) and norm(l.iter) == "enumerate(self._preimage_count)" and isinstance(l.target, ast.Tuple) and len(l.target.elts) == 2]
+    if len(loops) != 1:
+        raise AnalysisError("F12: preimage_gap no longer scans enumerate(self._preimage_count)")
+    lp = loops[0]
+    i, v = (norm(e) for e in lp.target.elts)
+    last = None
+    for st in walk_local(lp):
+        tg, val = PT.assign_value(st)
+        if isinstance(tg, ast.Name) and val is not None and norm(val) == i:
+            gs = C.flatten_guards(C.guards(f, st, within=lp))
+            if any((pol and norm(t) in (f"{v} != 0", f"{v} > 0", f"0 != {v}", f"0 < {v}", v)) or ((not pol) and norm(t) in (f"{v} == 0", f"0 == {v}")) for t, pol in gs):
+                last = tg.id
+    if last is None:
+        ctx.violation("F12", lp, f"preimage_gap must remember the last value `{i}` whose count `{v}` is not zero", construct=f"{FN}.preimage_gap last used value")
+        return
+    init = [d for d in D.definitions(f).get(last, []) if d[1] is not None and d[0].lineno < lp.lineno]
+    if init and affine(init[0][1]) == {"1": -1}:
+        ctx.ok("F12", f"the scan starts with {last} = -1 (no value used yet)")
+    else:
+        ctx.violation("F12", lp, f"`{last}` must start at -1: the gap may begin at value 0", construct=f"{FN}.preimage_gap start")
+    exits = [n for n in walk_local(lp) if isinstance(n, (ast.Return, ast.Break))]
+    okx = False
+    for e in exits:
+        for t, pol in C.flatten_guards(C.guards(f, e, within=lp)):
+            if pol and isinstance(t, ast.Compare) and len(t.ops) == 1:
+                a, b = affine(t.left), affine(t.comparators[0])
+                if a is None or b is None:
+                    continue
+                d = dict(a)
+                for k2, v2 in b.items():
+                    d[k2] = d.get(k2, 0) - v2
+                d = {k2: v2 for k2, v2 in d.items() if v2}
+                # i - last - length >= 0  or  > -1 ...
+                if isinstance(t.ops[0], ast.GtE) and d == {i: 1, last: -1, length: -1}:
+                    okx = True
+                if isinstance(t.ops[0], ast.Gt) and d == {i: 1, last: -1, length: -1, "1": 1}:
+                    okx = True
+                if isinstance(t.ops[0], ast.LtE) and d == {i: -1, last: 1, length: 1}:
+                    okx = True
+    if okx:
+        ctx.ok("F12", f"the scan stops at the first run of {length} unused values ({i} - {last} >= {length})")
+    else:
+        ctx.violation("F12", lp, f"the scan must stop as soon as `{i} - {last} >= {length}` (a window of {length} values nobody has)", construct=f"{FN}.preimage_gap stop")
+    rets = [r for r in C.returns_of(f) if r.value is not None]
+    if rets and all(affine(r.value) == {last: 1, "1": 1} or (isinstance(r.value, ast.Subscript) and reads) for r in rets):
+        ctx.ok("F12", f"the gap starts right after the last used value ({last} + 1)")
+    else:
+        ctx.violation("F12", rets[0] if rets else f, f"preimage_gap must return `{last} + 1`", construct=f"{FN}.preimage_gap result")
+    neg = [r for r in C.raises_of(f)]
+    if neg and any(pol and _gt(t) is None and norm(t) in (f"{length} <= 0", f"{length} < 1", f"0 >= {length}") for r in neg for t, pol in C.flatten_guards(C.guards(f, r))):
+        ctx.ok("F12", "a non-positive window length is refused")
+
+
+# ------------------------------------------------------------------ F13: the database hands every key to the table
+def f13_database_insertion(ctx) -> None:
+    """RuleDBForest.add gives the table the key of the rule it is handed (and of its reverse
+    forms) on every call: two rules with the same (start, ends) can have different shifts,
+    buckets and reverse forms, so 'seen before' by labels is no reason to skip."""
+    P = ctx.P
+    m = P.need_method("RuleDBForest", "add", own=True)
+    f = m.node
+    ctx.analysed(m)
+    ps = [p for p in D.param_names(f) if p != "self"]
+    rule = ps[2] if len(ps) >= 3 else "rule"
+    ins = _calls(f, "self.table_method.add_rule_key")
+    if len(ins) != 1 or len(ins[0].args) != 1:
+        ctx.violation("F13", f, "RuleDBForest.add must insert keys through exactly one self.table_method.add_rule_key(<key>) site", construct="RuleDBForest.add insertion")
+        return
+    c = ins[0]
+    loops = [l for l in C.enclosing_loops(f, c) if isinstance(l, ast.For)]
+    if not loops or norm(loops[0].target) != norm(c.args[0]):
+        raise AnalysisError("F13: RuleDBForest.add no longer inserts its keys from a for loop over the list of new keys")
+    lp = loops[0]
+    kv = norm(c.args[0])
+    harmless = {(f"self.table_method.is_pumping({kv}.parent)", False), (f"self.is_verified({kv}.parent)", False)}
+    inner = [(norm(t), pol) for t, pol in _skipping_guards(f, c) if any(x is t or any(y is t for y in ast.walk(x)) for x in ast.walk(lp))]
+    inner = [g for g in inner if g not in harmless]     # a rule for a class that already pumps changes no value
+    outer = [(norm(t), pol) for t, pol in _skipping_guards(f, lp)]
+    if not inner and not outer:
+        ctx.ok("F13", "every new key is handed to the table, on every call")
+    else:
+        ctx.violation("F13", c, f"keys reach the table only under {inner + outer}: a rule whose labels were seen before can still have other shifts, another bucket or reverse "
+                      "forms, and is lost")
+    keys = _value_of(f, lp.iter) if isinstance(lp.iter, ast.Name) else lp.iter
+    first = keys.elts[0] if isinstance(keys, ast.List) and keys.elts else None
+    if first is not None and isinstance(first, ast.Call) and norm(first.func) == f"{rule}.forest_key":
+        ctx.ok("F13", f"the list of new keys starts with the forest key of the rule handed in ({rule})")
+    else:
+        ctx.violation("F13", lp, f"the keys inserted must start with {rule}.forest_key(...), the key of the rule handed in; found `{norm(keys)[:80]}`")
